@@ -1,4 +1,5 @@
-from . import check_world
+from . import check_world, c05ident
 PROP = "C05"
 def run(tier, seed, t0, H):
-    return check_world.run(PROP, tier, seed, t0, H)
+    # second engine: implementation-only probe of "no accepted commit changes the identity bound to a member" (vlib/c05ident.py)
+    return check_world.run(PROP, tier, seed, t0, H, second_engine=c05ident.second_engine)
